@@ -49,7 +49,7 @@ func c09Scenario(r *vf.Run, t *testing.T, id string, rng *rand.Rand) {
 	g := genOpts{MaxBody: 900, AllowTrail: true, AllowUnder: true, RespStream: true, AllowStream2: true, MaxRespBody: 3000}
 	const bodyLimit = 1000
 	kinds := []string{"malformed-field", "malformed-field", "malformed-field-continued", "body-too-large-declared", "body-too-large-undeclared", "refused", "peer-rst-after-headers", "peer-rst-mid-body",
-		"peer-rst-handler-running", "peer-rst-response-blocked", "peer-rst-after-done", "handler-panic", "window-overflow", "cl-mismatch", "timeout-half-open", "timeout-handler-running"}
+		"peer-rst-handler-running", "peer-rst-response-blocked", "peer-rst-after-done", "handler-panic", "window-overflow", "cl-mismatch", "timeout-half-open", "timeout-handler-running", "response-read-error"}
 	nOff := 1 + rng.Intn(2)
 	var offKinds []string
 	for i := 0; i < nOff; i++ {
@@ -134,6 +134,7 @@ func c09Scenario(r *vf.Run, t *testing.T, id string, rng *rand.Rand) {
 			rt.Wait()
 		}
 		var inserted []F
+		var offenderStreams []uint32 // streams whose response body reader was planned to fail
 		var parkGates []chan struct{}
 		for oi, kind := range offKinds {
 			n := nextStream
@@ -331,6 +332,30 @@ func c09Scenario(r *vf.Run, t *testing.T, id string, rng *rand.Rand) {
 				inserted = append(inserted, ins1, ins2)
 				e.H.SetPlan(tag, &rt.RespPlan{Panic: true})
 				e.P.Write(rt.Concat(rt.HeaderFrames(sid, enc(fs, choicesFor(fs)), nil, -1, nil, true)))
+			case "response-read-error":
+				// the handler's own side goes wrong: its streamed response body fails on the first read, part way through the first
+				// frame, or after several frames (the stream is then reset by the server with a response half sent)
+				fs := append(append([]F{}, base...), ins1, ins2)
+				inserted = append(inserted, ins1, ins2)
+				total := []int{10, 3000, 40000}[rng.Intn(3)]
+				at := 1 + rng.Intn(total)
+				e.H.SetPlan(tag, &rt.RespPlan{Status: 200, Body: make([]byte, total), Stream: 1 + rng.Intn(2), ReadChunk: []int{0, 1, 700}[rng.Intn(3)], ReadErrAfter: at})
+				out := rt.Concat(rt.HeaderFrames(sid, enc(fs, choicesFor(fs)), nil, -1, nil, true))
+				e.P.Write(out)
+				rt.Wait()
+				if inflight {
+					e.P.Write(append(rt.WindowUpdate(sid, 1000), rt.Priority(sid, 0, false, 3)...))
+				}
+				r.Mark("response_read_error_points", fmt.Sprintf("total=%d/at<=%d", total, []int{1, 10, 3000, 16384, 40000}[func() int {
+					for i, b := range []int{1, 10, 3000, 16384, 40000} {
+						if at <= b {
+							return i
+						}
+					}
+					return 4
+				}()]))
+				serverResets = true
+				offenderStreams = append(offenderStreams, sid)
 			case "window-overflow":
 				fs := append(append([]F{}, base...), ins1, ins2)
 				inserted = append(inserted, ins1, ins2)
@@ -428,6 +453,17 @@ func c09Scenario(r *vf.Run, t *testing.T, id string, rng *rand.Rand) {
 			}
 			if d := checkResponse(q, rt.FramesFor(fs, q.Stream)); d != "" {
 				fail("other-stream-response-corrupted", fmt.Sprintf("response %s after offences %v: %s", q.Tag, offKinds, d))
+			}
+		}
+		for _, sid := range offenderStreams {
+			ff := rt.FramesFor(fs, sid)
+			switch {
+			case len(ff) > 0 && ff[len(ff)-1].Type == wire.TRstStream:
+				r.Inc("failed_response_reset", 1)
+			case len(ff) > 0 && ff[len(ff)-1].EndStream:
+				r.Inc("failed_response_ended_with_end_stream", 1)
+			default:
+				r.Inc("failed_response_left_open", 1)
 			}
 		}
 		r.Inc("good_streams_checked", int64(len(good)))
